@@ -25,7 +25,7 @@ if [ -f $SRC/version.c ]; then cp $SRC/version.c $B/gen/version.c; else
 CPP="-DHAVE_CONFIG_H -I$B/gen -I$SRC -D_POSIX_C_SOURCE=200809L -D_XOPEN_SOURCE=700 -D_DEFAULT_SOURCE"
 case $FLAV in
  plain) CF="-std=c11 -g -O2 -w" ; LF="" ;;
- asan)  CF="-std=c11 -g -O1 -w -fsanitize=address,undefined -fno-sanitize-recover=undefined -fno-omit-frame-pointer" ; LF="-fsanitize=address,undefined" ;;
+ asan)  CF="-std=c11 -g -O1 -w -fsanitize=address,bounds -fno-sanitize-recover=bounds -fno-omit-frame-pointer" ; LF="-fsanitize=address,bounds" ;;
  *) echo "unknown flavour" >&2; exit 2;;
 esac
 LIBSRC="instant range dt-strpf module hash intern state task strlst bufpool event evstrm evical evrrul evmrul evfilt tzob scale shift tzraw bitint echse-genuid"
